@@ -1087,6 +1087,8 @@ impl Server {
                 // CopyInResponse: copy is starting from client to server.
                 'G' => {
                     self.in_copy_mode = true;
+                    // The server waits for the client now, whatever came before in this reply.
+                    self.data_available = false;
                     break;
                 }
 
